@@ -127,7 +127,12 @@ def h_compose(g, seq, cut, nmodes):
     # the measured parameter -- true for every template here)
     repoint(p1)
     repoint(p2)
-    engA.run([p1, p2], modes=[])
+    from strawberryfields.parameters import ParameterError
+    try:
+        engA.run([p1, p2], modes=[])
+    except ParameterError as e:
+        g.fact("run([p1, p2]) does not raise ParameterError", False, detail=str(e))
+        return
     sA = final(engA)
     g.fact("programs untouched after run([p1,p2])", unchanged(p1, snaps[0]) and unchanged(p2, snaps[1]))
     # B: two successive calls on a fresh engine, with the same program objects (running again gives the same result)
